@@ -5,6 +5,7 @@ import (
 	"go/ast"
 	"go/types"
 	"sort"
+	"strings"
 
 	"golang.org/x/tools/go/packages"
 )
@@ -118,6 +119,45 @@ func (w *World) InitSpecs() {
 	for _, k := range keys {
 		w.defineSpec(w.Specs[k])
 	}
+	// trusted / declared axioms over logic functions
+	for _, ax := range w.CS.Axioms {
+		func() {
+			defer func() {
+				if r := recover(); r != nil {
+					if ce, ok := r.(ctransErr); ok {
+						w.Errors = append(w.Errors, fmt.Sprintf("axiom %s: %s", ax.Label, ce.msg))
+						return
+					}
+					panic(r)
+				}
+			}()
+			x := &Exec{W: w, pure: true, Fn: w.anyFunc()}
+			env := &CEnv{X: x, Names: map[string]*Val{}, St: &St{heap: map[string]*Term{}}, Pkg: w.mainPkg()}
+			body := env.Formula(ax.Expr)
+			lits, syms, ops := map[string]bool{}, map[string]Sort{}, map[string]bool{}
+			body.Collect(lits, syms, ops)
+			var defs []string
+			for o := range ops {
+				if strings.HasPrefix(o, "logic.") {
+					defs = append(defs, o)
+				}
+			}
+			sort.Strings(defs)
+			if len(defs) == 0 {
+				w.Errors = append(w.Errors, "axiom "+ax.Label+" mentions no logic function")
+				return
+			}
+			w.BG.Axioms = append(w.BG.Axioms, &Axiom{Name: "axiom " + ax.Label, Defines: defs, Body: body})
+			w.TrustedAxioms = append(w.TrustedAxioms, ax.Label+": "+ax.Text)
+		}()
+	}
+}
+
+func (w *World) anyFunc() *FuncInfo {
+	for _, k := range sortedKeys(w.Funcs) {
+		return w.Funcs[k]
+	}
+	return nil
 }
 
 func (w *World) keySort(key string) Sort {
